@@ -96,7 +96,11 @@ func smtString(v string) string {
 func obligQuery(pre, body string, o *Oblig, getModel string) string {
 	var sb strings.Builder
 	sb.WriteString("; obligation: " + o.Name + "\n; clause: " + strings.ReplaceAll(o.Clause, "\n", " ") + "\n")
-	sb.WriteString(pre)
+	if os.Getenv("KVC_NOPRUNE") == "1" {
+		sb.WriteString(pre)
+	} else {
+		sb.WriteString(prunePrelude(pre, body, o.PC, o.Goal))
+	}
 	sb.WriteString(body)
 	sb.WriteString("\n(assert " + o.PC + ")\n")
 	if !o.Cover {
